@@ -92,7 +92,7 @@ theorem decompressLiterals_eq (sec : LitSection) (t : DecTable) (source target :
   rfl
 
 
-theorem litStep1_spec (H : SpecFseOK) (sec : LitSection) (t : DecTable) (src : List Nat)
+theorem litStep1_spec (sec : LitSection) (t : DecTable) (src : List Nat)
     (hb : Bytes src) (hwf : HufWF t) (hty : sec.lsType = .compressed ∨ sec.lsType = .treeless) :
     (∀ f, (litStep1 sec t src).2 ≠ .error (.fault f)) ∧
     (∀ t1 br, litStep1 sec t src = (t1, .ok br) → HufBuilt t1 ∧ br ≤ src.length) := by
@@ -100,8 +100,8 @@ theorem litStep1_spec (H : SpecFseOK) (sec : LitSection) (t : DecTable) (src : L
   rcases hty with hty | hty
   · rw [hty]
     simp only
-    have hnf := hufBuildDecoder_no_fault H t src hb
-    have hok := fun t' used => hufBuildDecoder_ok H (t := t) (src := src) hb (t' := t') (used := used)
+    have hnf := hufBuildDecoder_no_fault t src hb
+    have hok := fun t' used => hufBuildDecoder_ok (t := t) (src := src) hb (t' := t') (used := used)
     generalize buildDecoder t src = bd at hnf hok
     obtain ⟨t1, r1⟩ := bd
     cases r1 with
@@ -211,7 +211,7 @@ theorem litFinish_ok {sec : LitSection} {t t' : DecTable} {res : DRes LitErr (Li
       subst h1 h2 h3
       exact ⟨rfl, rfl, by omega⟩
 
-theorem decompressLiterals_spec (H : SpecFseOK) (sec : LitSection) (t : DecTable) (src : List Nat)
+theorem decompressLiterals_spec (sec : LitSection) (t : DecTable) (src : List Nat)
     (hb : Bytes src) (hwf : HufWF t) (hty : sec.lsType = .compressed ∨ sec.lsType = .treeless)
     (hcs : sec.compressedSize = some src.length)
     (hns : sec.numStreams = some 1 ∨ sec.numStreams = some 4) :
@@ -224,7 +224,7 @@ theorem decompressLiterals_spec (H : SpecFseOK) (sec : LitSection) (t : DecTable
     · exact ⟨4, h, Or.inr rfl⟩
   rw [decompressLiterals_eq]
   simp only [hcs, hn, Nat.lt_irrefl, if_false, List.take_length]
-  obtain ⟨s1nf, s1ok⟩ := litStep1_spec H sec t src hb hwf hty
+  obtain ⟨s1nf, s1ok⟩ := litStep1_spec sec t src hb hwf hty
   generalize litStep1 sec t src = st at s1nf s1ok
   obtain ⟨t1, r1⟩ := st
   cases r1 with
@@ -245,7 +245,7 @@ theorem decompressLiterals_spec (H : SpecFseOK) (sec : LitSection) (t : DecTable
 /-- **F.** `decode_literals` on the slice handed over by `decompress_block`: no panic, no hang;
 on success the table is well formed, exactly `regenerated_size` literals were produced and the
 whole slice was consumed. -/
-theorem decodeLiterals_spec (H : SpecFseOK) (sec : LitSection) (t : DecTable) (src : List Nat)
+theorem decodeLiterals_spec (sec : LitSection) (t : DecTable) (src : List Nat)
     (hb : Bytes src) (hwf : HufWF t) (hpre : LitPre sec src) :
     (∀ f, (decodeLiterals sec t src []).2 ≠ .error (.fault f)) ∧
     (∀ t' lits used, decodeLiterals sec t src [] = (t', .ok (lits, used)) →
@@ -276,22 +276,22 @@ theorem decodeLiterals_spec (H : SpecFseOK) (sec : LitSection) (t : DecTable) (s
   | compressed =>
     simp only
     obtain ⟨hcs, hns⟩ := hpre.comp (Or.inl hty)
-    exact decompressLiterals_spec H sec t src hb hwf (Or.inl hty) hcs hns
+    exact decompressLiterals_spec sec t src hb hwf (Or.inl hty) hcs hns
   | treeless =>
     simp only
     obtain ⟨hcs, hns⟩ := hpre.comp (Or.inr hty)
-    exact decompressLiterals_spec H sec t src hb hwf (Or.inr hty) hcs hns
+    exact decompressLiterals_spec sec t src hb hwf (Or.inr hty) hcs hns
 
-theorem decodeLiterals_no_fault (H : SpecFseOK) (sec : LitSection) (t : DecTable) (src : List Nat)
+theorem decodeLiterals_no_fault (sec : LitSection) (t : DecTable) (src : List Nat)
     (hb : Bytes src) (hwf : HufWF t) (hpre : LitPre sec src) (f : Fault) :
     (decodeLiterals sec t src []).2 ≠ .error (.fault f) :=
-  (decodeLiterals_spec H sec t src hb hwf hpre).1 f
+  (decodeLiterals_spec sec t src hb hwf hpre).1 f
 
-theorem decodeLiterals_ok (H : SpecFseOK) (sec : LitSection) (t : DecTable) (src : List Nat)
+theorem decodeLiterals_ok (sec : LitSection) (t : DecTable) (src : List Nat)
     (hb : Bytes src) (hwf : HufWF t) (hpre : LitPre sec src) {t' : DecTable} {lits : List Nat} {used : Nat}
     (h : decodeLiterals sec t src [] = (t', .ok (lits, used))) :
     HufWF t' ∧ lits.length = sec.regeneratedSize ∧ used = src.length :=
-  (decodeLiterals_spec H sec t src hb hwf hpre).2 t' lits used h
+  (decodeLiterals_spec sec t src hb hwf hpre).2 t' lits used h
 
 /-! ### non-vacuity: the hypotheses are satisfiable and the success case occurs -/
 
